@@ -36,7 +36,32 @@ extern "C" hid_t __wrap_H5Fcreate(const char *name, unsigned flags, hid_t fcpl, 
     return r;
 }
 
+// Transfer-buffer knob: nix reads and writes with the default transfer list, whose type-conversion buffer is 1 MiB; a smaller one makes
+// libhdf5 convert compound rows and variable-length strings in strips (another route through the same code) - and spares the
+// sanitizer a megabyte mapping per call.
+extern "C" herr_t __real_H5Dread(hid_t d, hid_t mt, hid_t ms, hid_t fs, hid_t dxpl, void *buf);
+extern "C" herr_t __real_H5Dwrite(hid_t d, hid_t mt, hid_t ms, hid_t fs, hid_t dxpl, const void *buf);
+namespace {
+int g_tbuf_mode = 0; hid_t g_dxpl = -1; int g_dxpl_mode = -1; uint64_t g_tbuf_applied = 0;
+hid_t transfer_list(hid_t given) {
+    if (g_tbuf_mode == 0 || given != H5P_DEFAULT) return given;
+    if (g_dxpl < 0 || g_dxpl_mode != g_tbuf_mode) {
+        if (g_dxpl >= 0) H5Pclose(g_dxpl);
+        g_dxpl = H5Pcreate(H5P_DATASET_XFER);
+        if (g_dxpl < 0) return given;
+        H5Pset_buffer(g_dxpl, g_tbuf_mode == 1 ? 64 * 1024 : 16 * 1024, NULL, NULL);
+        g_dxpl_mode = g_tbuf_mode;
+    }
+    g_tbuf_applied++;
+    return g_dxpl;
+}
+}
+extern "C" herr_t __wrap_H5Dread(hid_t d, hid_t mt, hid_t ms, hid_t fs, hid_t dxpl, void *buf) { return __real_H5Dread(d, mt, ms, fs, transfer_list(dxpl), buf); }
+extern "C" herr_t __wrap_H5Dwrite(hid_t d, hid_t mt, hid_t ms, hid_t fs, hid_t dxpl, const void *buf) { return __real_H5Dwrite(d, mt, ms, fs, transfer_list(dxpl), buf); }
+
 namespace sim {
+void h5knob_tbuf(int mode) { g_tbuf_mode = mode; }
+uint64_t h5knob_tbuf_applied() { return g_tbuf_applied; }
 void h5knob_set(int c, int s) { g_cache_mode = c; g_sieve_mode = s; }
 uint64_t h5knob_applied() { return g_applied; }
 void h5_quiet() { H5Eset_auto2(H5E_DEFAULT, NULL, NULL); }
